@@ -170,9 +170,9 @@ class Case(object):
                 if codec == 'ber':
                     out = ber_enc.encode(obj, **opts)
                 elif codec == 'cer':
-                    out = cer_enc.encode(obj)
+                    out = cer_enc.encode(obj, **opts)
                 else:
-                    out = der_enc.encode(obj)
+                    out = der_enc.encode(obj, **opts)
                 self._enc[key] = ('ok', out)
             except RecursionError as e:
                 self._enc[key] = ('exc', e)
